@@ -160,7 +160,7 @@ def run_rebin(W, cfg):
 # ------------------------------------------------------------------ drawn shapes
 def cfg_shapes(tier, seed):
     out = []
-    for kind in ('circle', 'hexagon', 'hexagon-rot', 'rectangle'):
+    for kind in ('circle', 'hexagon', 'hexagon-rot', 'rectangle', 'rectangle-90', 'rectangle-30'):
         for shp in ((3, 3), (2, 3), (3, 4)):
             for aa in (True, False):
                 out.append({'kind': kind, 'shape': list(shp), 'antialias': aa})
@@ -174,6 +174,8 @@ def _draw(lt, kind, shp, size, shift, aa):
         return lt.hexagon(shp, size[0], shift=shift, antialias=aa)
     if kind == 'hexagon-rot':
         return lt.hexagon(shp, size[0], shift=shift, rotate=True, antialias=aa)
+    if kind.startswith('rectangle-'):
+        return lt.rectangle(shp, size[0], size[1], shift=shift, angle=int(kind.split('-')[1]), antialias=aa)
     return lt.rectangle(shp, size[0], size[1], shift=shift, antialias=aa)
 
 
@@ -208,6 +210,8 @@ def run_shapes(W, cfg):
             i2, j2 = 2 * o[0] - i, 2 * o[1] - j
             if 0 <= i2 < shp[0] and 0 <= j2 < shp[1]:
                 W.ob(f'half-turn symmetric [{i},{j}]', z[i2, j2], z[i, j])
+            if kind.startswith('rectangle-'):
+                continue            # mirror symmetry is stated for unrotated shapes
             if 0 <= j2 < shp[1]:
                 W.ob(f'mirror (columns) [{i},{j}]', z[i, j2], z[i, j])
             if 0 <= i2 < shp[0]:
